@@ -50,6 +50,7 @@ CONTEXTS = [
     ('207', [207001], [207000], 0, 0, 1),
     ('201+202', [201130, 202129], [201000, 202000], 2, 1, 0),
     ('203', None, None, 0, 0, 0),
+    ('203+207', None, None, 0, 0, 1),
 ]
 
 
@@ -105,9 +106,9 @@ def element_contexts(ctx, enc, dec, B, eid, mtv):
         s = scale + ds + m207
         r = ref * 10 ** m207
         newref = None
-        if cname == '203':
+        if cname.startswith('203'):
             newref = rng.choice([-37, 11, -1, 0, 100])
-            r = newref
+            r = newref * 10 ** m207
         if w < 2 or w > 64 or (s != 0 and w > 40):
             continue
         top = (1 << w) - 1
@@ -128,13 +129,17 @@ def element_contexts(ctx, enc, dec, B, eid, mtv):
         def tmpl(k):
             if cname == '203':
                 return [203008, eid, 203255, 100000 + 1000 + k, eid, 203000] if k > 1 else [203008, eid, 203255, eid, 203000]
+            if cname == '203+207':
+                # the 207 factor applies to the 203-defined reference as well
+                return ([203008, eid, 203255, 207001, 100000 + 1000 + k, eid, 207000, 203000] if k > 1
+                        else [203008, eid, 203255, 207001, eid, 207000, 203000])
             body = ([100000 + 1000 + k, eid] if k > 1 else [eid])
             return list(opn) + body + list(cls)
 
         def vals_of(v):
-            return ([newref] + list(v)) if cname == '203' else list(v)
+            return ([newref] + list(v)) if cname.startswith('203') else list(v)
 
-        off = 1 if cname == '203' else 0
+        off = 1 if cname.startswith('203') else 0
         spec = dict(part='bound', element=eid, context=cname, mtv=mtv, w=w, s=s, r=r)
         # ---- (a) in-range batch, uncompressed
         fj = envelope(tmpl(K), 1, False, [vals_of(xs)])
@@ -197,6 +202,7 @@ def element_contexts(ctx, enc, dec, B, eid, mtv):
 
 
 STR_POOL = ['', 'A', 'AB C', '  lead', 'trail  ', 'x' * 9, 'Z\xfcrich', '\xe9', "it's", '0', ' ', None]
+UNREPRESENTABLE = ['Gda\u0144sk', '\u6771\u4eac', 'a\u20acb']   # cannot be written as octets: refusal is the only correct outcome
 
 
 def string_roundtrip(ctx, enc, dec):
@@ -223,6 +229,9 @@ def string_roundtrip(ctx, enc, dec):
                     v = v[:w]        # over-long values are outside the stated behaviour (truncation is C19's business)
                 row.append(v)
             rows.append(row + [rng.randint(0, 100)])
+        if q % 6 == 5:
+            rows[rng.randrange(nsub)][rng.randrange(3)] = rng.choice(UNREPRESENTABLE)
+            ctx.count('string_messages_with_unrepresentable_character')
         spec = dict(part='strings', ids=ids, compressed=comp, values=rows)
         ctx.count('string_messages')
         try:
@@ -242,7 +251,10 @@ def string_roundtrip(ctx, enc, dec):
                 x, y = rows[k][j], got[k][j]
                 ctx.count('string_values_checked')
                 ctx.evaluated(('str', q, k, j), x is None or len(x) < w)
-                if x is None:
+                if x is not None and any(ord(ch) > 255 for ch in x):
+                    ok = False
+                    what = 'not-representable-accepted'
+                elif x is None:
                     ok = y is None or (isinstance(y, bytes) and y and set(y) == {0xff})
                     what = 'missing'
                 else:
